@@ -51,6 +51,7 @@ class StateSpace:
         source_kwargs: Optional[dict] = None,
         ops=("mutate", "crossover"),
         snapshot: Callable[[Any], Any] = genotype_snapshot,
+        post: Optional[Callable[[Any, Any], None]] = None,
     ):
         self.make_rep = make_rep
         self.canon = canon
@@ -62,6 +63,9 @@ class StateSpace:
         self.source_kwargs = source_kwargs or {}
         self.ops = ops
         self.snapshot = snapshot
+        # post(rep, genotype): run inside the explored call on every freshly produced genotype (dSGE: map it
+        # once so that its on-demand gene lists exist; the extension draws are explored like any other)
+        self.post = post
         self.states: list[Any] = []  # representative live objects
         self.snaps: list[Any] = []
         self.how: list[tuple] = []  # (op, parent indices, choices) that first reached the state
@@ -121,8 +125,15 @@ class StateSpace:
 
     # ------------------------------------------------------------------
     def run(self, K: int, on_transition: Callable[[Transition], None]):
+        def fin(rep, out):
+            if self.post is not None:
+                for o in (out if isinstance(out, tuple) else (out,)):
+                    self.post(rep, o)
+            return out
+
         def create(src):
-            return self.make_rep(src).create_genotype(src)
+            rep = self.make_rep(src)
+            return fin(rep, rep.create_genotype(src))
 
         frontier = []
         for ex in self._explore(create):
@@ -142,7 +153,8 @@ class StateSpace:
                 if "mutate" in self.ops:
 
                     def mut(src, s=s):
-                        return self.make_rep(src).mutate(src, s)
+                        rep = self.make_rep(src)
+                        return fin(rep, rep.mutate(src, s))
 
                     for ex in self._explore(mut):
                         if ex.capped:
@@ -164,7 +176,8 @@ class StateSpace:
                                 continue
 
                             def xo(src, a=a, b=b):
-                                return self.make_rep(src).crossover(src, a, b)
+                                rep = self.make_rep(src)
+                                return fin(rep, rep.crossover(src, a, b))
 
                             for ex in self._explore(xo):
                                 if ex.capped:
